@@ -295,6 +295,27 @@ def rand_tree(rng, universe, c, loaded=None, depth=3, field=0):
     return toks
 
 
+def inject_unknown_xml(xml):
+    """`xml` with an unknown child element appended to the root element (None if the root is empty-tagged)"""
+    i = xml.rfind("</")
+    if i < 0:
+        return None
+    return xml[:i] + "<zz-unknown a=\"1\">t<zz-deeper/></zz-unknown>" + xml[i:]
+
+
+def inject_unknown_json(js):
+    import json
+
+    try:
+        d = json.loads(js)
+    except ValueError:
+        return None
+    if not isinstance(d, dict):
+        return None
+    d["zz_unknown"] = {"t": 1}
+    return json.dumps(d)
+
+
 def rand_docs(rng, universe):
     """Document-level calls (inputs rendered once with fresh real instances)."""
     from xsdata.formats.dataclass.serializers import JsonSerializer, XmlSerializer
@@ -315,6 +336,17 @@ def rand_docs(rng, universe):
                 continue
             ops.append({"k": "xml_parse", "doc": xml, "c": c})
             ops.append({"k": "xml_parse", "doc": xml, "c": None})
+            # the same document with unknown content, read leniently and strictly through the
+            # same instances (a seeded change remembered "unknown" names on the shared metadata
+            # during a lenient parse and skipped them in later strict parses)
+            inj = inject_unknown_xml(xml)
+            if inj:
+                for strict in (False, True):
+                    ops.append({"k": "xml_parse", "doc": inj, "c": c, "cfg": {"fail_on_unknown_properties": strict}})
+            injj = inject_unknown_json(js)
+            if injj:
+                for strict in (False, True):
+                    ops.append({"k": "json_parse", "doc": injj, "c": c, "cfg": {"fail_on_unknown_properties": strict}})
             ops.append({"k": "json_parse", "doc": js, "c": c})
             ops.append({"k": "json_parse_any", "doc": js, "c": None})
         if ops:
